@@ -37,14 +37,15 @@ package vm
 //@ spec fun strOf(v reflect.Value) string = ite(rvKind(v) == reflect.String, rvStr(v), sprintI(rvIface(v)))
 
 // ---------------------------------------------------------------------------
-// small-integer cache (C05: fast paths return the same values as the general path)
-//@ global_inv cache: forall i int :: 0 <= i && i < 4097 ==> rvKind(int64Cache[i]) == reflect.Int64 && rvInt(int64Cache[i]) == i - 1 && rvValid(int64Cache[i]) && !rvIsNil(int64Cache[i])
+// small-integer cache (C05: fast paths return the same values as the general path; C14: the shared pre-boxed values are
+// indistinguishable from boxing on demand - in particular NOT addressable, so no script can reach shared storage through &x)
+//@ global_inv cache: forall i int :: 0 <= i && i < 4097 ==> rvKind(int64Cache[i]) == reflect.Int64 && rvInt(int64Cache[i]) == i - 1 && rvValid(int64Cache[i]) && !rvIsNil(int64Cache[i]) && !rvCanAddr(int64Cache[i])
 
 //@ func init#1
-//@ props C05
+//@ props C05 C14
 //@ modifies elems(int64Cache)
-//@ ensures [C05] cache: forall i int :: 0 <= i && i < 4097 ==> rvKind(int64Cache[i]) == reflect.Int64 && rvInt(int64Cache[i]) == i - 1 && rvValid(int64Cache[i]) && !rvIsNil(int64Cache[i])
-//@ loop 0 invariant -1 <= i && i <= 4096 && (forall k int :: 0 <= k && k < i + 1 ==> rvKind(int64Cache[k]) == reflect.Int64 && rvInt(int64Cache[k]) == k - 1 && rvValid(int64Cache[k]) && !rvIsNil(int64Cache[k]))
+//@ ensures [C05 C14] cache: forall i int :: 0 <= i && i < 4097 ==> rvKind(int64Cache[i]) == reflect.Int64 && rvInt(int64Cache[i]) == i - 1 && rvValid(int64Cache[i]) && !rvIsNil(int64Cache[i]) && !rvCanAddr(int64Cache[i])
+//@ loop 0 invariant -1 <= i && i <= 4096 && (forall k int :: 0 <= k && k < i + 1 ==> rvKind(int64Cache[k]) == reflect.Int64 && rvInt(int64Cache[k]) == k - 1 && rvValid(int64Cache[k]) && !rvIsNil(int64Cache[k]) && !rvCanAddr(int64Cache[k]))
 
 // operands of a binary operator as this activation obtained them (second traced result of invokeExpr = the value)
 //@ spec fun opL() reflect.Value = unwrap(res2(0))
@@ -92,6 +93,7 @@ package vm
 
 // further observers used by the trusted reflect contracts (C01)
 //@ spec fun rvCanAddr(v reflect.Value) bool
+//@ spec fun rvCanIface(v reflect.Value) bool
 // rvComparable(v): reflect.Value.Comparable - the DYNAMIC value can be compared / hashed (a slice wrapped in an interface
 // cannot, although its static type interface{} can); hashableKey(k): using k as a map key does not panic
 //@ spec fun rvComparable(v reflect.Value) bool
